@@ -90,7 +90,7 @@ def run(ctx):
                 'class; is_random both ways) whose expected verdict per draw is computed from the property text')
     ctx.assumptions += ['see C01; rejection expectations of the structured stream come from the property text, '
                         'not from the model']
-    regenerate(ctx)
+    ctx.safe_regenerate(regenerate)
     proof_err = c01.prove_core(ctx, PROP)
     for e in ctx.known:
         if e['status'] == 'known' and e['id'] == 'F18':
